@@ -35,6 +35,23 @@ Proof.
   unfold brace_free in IH. rewrite (IH H2). reflexivity.
 Qed.
 
+(* the escaped literal always renders back to the raw name *)
+Lemma fmt_render_escape : forall s, fmt_render (fmt_escape s) = Some s.
+Proof.
+  induction s as [|c r IH]; cbn [fmt_escape]; [reflexivity|].
+  destruct (c =? 123) eqn:A.
+  - apply N.eqb_eq in A. subst c.
+    change (fmt_render (123 :: 123 :: fmt_escape r))
+      with (option_map (cons 123) (fmt_render (fmt_escape r))).
+    rewrite IH. reflexivity.
+  - destruct (c =? 125) eqn:B.
+    + apply N.eqb_eq in B. subst c.
+      change (fmt_render (125 :: 125 :: fmt_escape r))
+        with (option_map (cons 125) (fmt_render (fmt_escape r))).
+      rewrite IH. reflexivity.
+    + cbn [fmt_render]. rewrite A, B, IH. reflexivity.
+Qed.
+
 (* ---------------- first_some ---------------- *)
 Lemma first_some_ext_in : forall {A B} (f g : A -> option B) l k,
   (forall a, In a l -> f a = g a) -> first_some f l k = first_some g l k.
@@ -253,8 +270,7 @@ Proof.
       destruct (nth_error vs k) as [v|] eqn:Hn; try discriminate.
       destruct (is_vsimple v) eqn:Sv; try discriminate.
       inversion Dx; subst x. rewrite HA, Hn, Sv.
-      pose proof (forallb_In _ _ _ K (nth_error_In _ _ Hn)) as Bf. cbv beta in Bf.
-      rewrite (fmt_render_literal _ Bf), serde_name_raw. split; [reflexivity|discriminate].
+      rewrite fmt_render_escape, serde_name_raw. split; [reflexivity|discriminate].
     + (* untagged *)
       apply andb_true_iff in W as [Wne Wall].
       apply andb_true_iff in F as [F Fwf]. apply andb_true_iff in F as [F FnA].
